@@ -5,10 +5,12 @@ import (
 	"time"
 
 	"github.com/samsarahq/thunder/thunderpb"
+	"github.com/samsarahq/thunder/verifhook"
 )
 
 func InvalidateAfter(ctx context.Context, d time.Duration) {
 	r := NewResource()
+	verifhook.At("reactive.InvalidateAfter.new", &r.node)
 	timer := time.AfterFunc(d, r.Invalidate)
 	r.Cleanup(func() { timer.Stop() })
 	AddDependency(ctx, r, &thunderpb.ExpirationTime{Time: time.Now().Add(d)})
